@@ -9,13 +9,13 @@ using namespace mpt;
 
 enum { OP_CLONE, OP_RELEASE, OP_APPEND, OP_INSERT, OP_SET, OP_SLICE, OP_RESERVE, OP_REDUCE, OP_CUT, OP_BINSERT, OP_BSET,
        OP_PRINTF, OP_STRING, OP_FLAGGED, OP_SWRITE, OP_DETACH, OP_RETYPE,
-       OP_X_ASSIGN, OP_X_APPEND, OP_X_INSERT, OP_X_SET, OP_X_RELEASE, OP_X_PRINTF, OP_X_TINSERT, OP_X_UINSERT, OP_X_TSET, OP_X_RESIZE, OP_X_RESERVE, OP_X_DETACH, OP_X_MAP, OP_X_PTRS };
+       OP_X_ASSIGN, OP_X_APPEND, OP_X_INSERT, OP_X_SET, OP_X_RELEASE, OP_X_PRINTF, OP_X_TINSERT, OP_X_UINSERT, OP_X_TSET, OP_X_RESIZE, OP_X_RESERVE, OP_X_DETACH, OP_X_MAP, OP_X_PTRS, OP_B_SET, OP_B_INSERT, OP_B_CLONE, OP_B_RELEASE, OP_B_WRITE, OP_B_CUT };
 static const char *const OPS[] = {"CLONE", "RELEASE", "APPEND", "INSERT", "SET", "SLICE", "RESERVE", "REDUCE", "CUT", "BINSERT", "BSET",
                                   "PRINTF", "STRING", "FLAGGED", "SWRITE", "DETACH", "RETYPE",
-                                  "X_ASSIGN", "X_APPEND", "X_INSERT", "X_SET", "X_RELEASE", "X_PRINTF", "X_TINSERT", "X_UINSERT", "X_TSET", "X_RESIZE", "X_RESERVE", "X_DETACH", "X_MAP", "X_PTRS", 0};
+                                  "X_ASSIGN", "X_APPEND", "X_INSERT", "X_SET", "X_RELEASE", "X_PRINTF", "X_TINSERT", "X_UINSERT", "X_TSET", "X_RESIZE", "X_RESERVE", "X_DETACH", "X_MAP", "X_PTRS", "B_SET", "B_INSERT", "B_CLONE", "B_RELEASE", "B_WRITE", "B_CUT", 0};
 enum { FL_NONE, FL_ALLOC, FL_INIT };
 static const char *const FAULTS[] = {"none", "allocfail", "initfail", 0};
-enum { K_RAW = 0, K_CHAR = 1, K_TRACKED = 2, K_CXX_BYTES = 3, K_CXX_TRACKED = 4 };
+enum { K_RAW = 0, K_CHAR = 1, K_TRACKED = 2, K_CXX_BYTES = 3, K_CXX_TRACKED = 4, K_BUILTIN = 5 };
 
 // ---------------------------------------------------------------- tracked elements (C05 ledger)
 static const uint32_t MAGIC = 0x454c454du, POISON = 0xdeadbeefu;
@@ -98,6 +98,18 @@ struct ArraysWorld : World {
 		int kind = sim::g_mode == 1 ? (int) r.below(2) : sim::g_mode == 2 ? K_TRACKED : (int) r.below(3);
 		if (r.chance(1, 4)) kind = sim::g_mode == 1 ? (r.chance(2, 3) ? K_CXX_BYTES : K_CXX_TRACKED) : sim::g_mode == 2 ? K_CXX_TRACKED : (r.chance(1, 2) ? K_CXX_BYTES : K_CXX_TRACKED);   // the typed containers carry C04's value semantics as well
 		p.set("kind", kind);
+		if (sim::g_mode != 1 && r.chance(1, 6)) {
+			// buffers of the library's own managed element types: identifiers (inline / allocated names), arrays (elements hold buffer references)
+			p.set("kind", K_BUILTIN); p.set("btype", r.below(2)); p.set("nh", 3);
+			int nops = (int) r.range(1, tier ? 80 : 40); bool allocf = r.chance(1, 3);
+			for (int i = 0; i < nops; ++i) {
+				Op op; static const int ops[] = {OP_B_SET, OP_B_SET, OP_B_SET, OP_B_INSERT, OP_B_INSERT, OP_B_CLONE, OP_B_CLONE, OP_B_RELEASE, OP_B_WRITE, OP_B_WRITE, OP_B_CUT};
+				op.kind = r.pick(ops); op.a = r.below(3) | (r.below(3) << 8); op.b = r.below(12) | (r.below(5) << 8) | (r.below(4) << 16); op.c = r.below(100000);
+				if (allocf && r.chance(1, 4)) { op.fault = FL_ALLOC; op.fa = r.range(1, 4); }
+				p.ops.push_back(op);
+			}
+			return;
+		}
 		if (kind >= K_CXX_BYTES) { gen_cxx(r, p, tier, kind); return; }
 		p.set("nh", r.range(2, 4));
 		static const int es[] = {8, 16, 24, 40};
@@ -209,7 +221,8 @@ struct ArraysWorld : World {
 	}
 
 	void exec(const Plan &p, Log &log, Stats &st) override {
-		kind = (int) p.get("kind") % 5; nh = (int) std::min<int64_t>(std::max<int64_t>(p.get("nh", 2), 1), 4);
+		kind = (int) p.get("kind") % 6; nh = (int) std::min<int64_t>(std::max<int64_t>(p.get("nh", 2), 1), 4);
+		if (kind == K_BUILTIN) { exec_builtin(p, log, st); return; }
 		if (kind == K_CXX_BYTES) { exec_cxx_bytes(p, log, st); return; }
 		if (kind == K_CXX_TRACKED) { exec_cxx_tracked(p, log, st); return; }
 		ES = kind == K_TRACKED ? (size_t) p.get("esize", 16) : 1;
@@ -371,7 +384,7 @@ struct ArraysWorld : World {
 				if (!H[h].buf) break;
 				bool nocopy = (H[h].buf->get_flags() & BufferNoCopy) != 0;
 				buffer *b; { Sut s; b = mpt_array_reserve(AR(H[h]), H[h].buf->_used, traits); }
-				if (!b) { failed = true; typed_fail = kind == K_TRACKED; break; }
+				if (!b) { if (!T.fired && !nocopy) fail("refused-valid", "making the buffer private (reserve of its current size) was refused without any fault"); failed = true; typed_fail = kind == K_TRACKED; break; }
 				// a no-copy buffer that cannot be used in place is replaced by an empty one (the flag forbids the copy)
 				if (nocopy && !b->_used) m.clear();
 				size_t ub = b->_used, cb = b->_size;
@@ -543,6 +556,136 @@ struct ArraysWorld : World {
 	}
 
 	// ================================================================ C++ layer: mpt::array on bytes
+	// ================================================================ buffers of the library's own managed element types
+	// identifiers: an element owns an allocation when its name does not fit inline; arrays: an element owns a buffer reference.
+	// Oracle: every handle reads the names / inner buffers a value-semantics vector holds; what elements own is visible to the
+	// ledger and AddressSanitizer (copied twice = double free, never finalised = block alive at the end, finalised early = use after free).
+	void exec_builtin(const Plan &p, Log &log, Stats &st) {
+		const int bt = (int) p.get("btype") & 1;
+		const type_traits *tr = bt ? mpt_array_traits() : mpt_identifier_traits();
+		const size_t es = tr->size;
+		CArr B[3] = {{0}, {0}, {0}}; std::vector<uint32_t> MB[3];
+		struct Cl { CArr *b; ~Cl() { for (int i = 0; i < 3; ++i) b[i].buf = 0; } } cl{B};
+		// inner buffers for the array element type: the harness holds one reference to each
+		CArr inner[4] = {{0}, {0}, {0}, {0}};
+		if (bt) for (int k = 0; k < 4; ++k) { Sut s; if (!mpt_array_append(AR(inner[k]), 4 + k, 0)) fail("setup", "inner buffer"); }
+		struct Ci { CArr *b; ~Ci() { for (int i = 0; i < 4; ++i) b[i].buf = 0; } } ci{inner};
+		log.ev("arrays kind=builtin elements=%s (element size %zu)", bt ? "array" : "identifier", es);
+		st.hit(bt ? "kind:builtin_array_elements" : "kind:builtin_identifier_elements");
+		uint32_t next = 1;
+		auto name_of = [&](uint32_t v) -> std::string { if (!v) return ""; char b[64]; if (v & 1) snprintf(b, sizeof b, "n%u", v); else snprintf(b, sizeof b, "a-long-name-that-needs-its-own-allocation-%u", v); return b; };
+		// a value: identifiers 1.. (odd = inline name, even = allocated name); arrays 1..4 = inner buffer, 0 = empty element in both
+		auto fresh_val = [&]() -> uint32_t { return bt ? 1 + (next++ % 4) : next++; };
+		auto make = [&](uint8_t *e, uint32_t v) {      // harness-built source element
+			if (bt) { array *a = (array *) e; *reinterpret_cast<buffer **>(a) = 0; if (v) { Sut s; mpt_array_clone(a, AR(inner[v - 1])); } }
+			else { identifier *id = (identifier *) e; mpt_identifier_init(id, es); if (v) { std::string n = name_of(v); Sut s; if (!mpt_identifier_set(id, n.c_str(), (int) n.size())) fail("setup", "source identifier"); } }
+		};
+		auto assign = [&](uint8_t *e, uint32_t v) {    // overwrite a live element in place, the way a user of the private buffer does
+			if (bt) { Sut s; mpt_array_clone((array *) e, v ? AR(inner[v - 1]) : 0); }
+			else { std::string n = name_of(v); Sut s; mpt_identifier_set((identifier *) e, v ? n.c_str() : 0, (int) n.size()); }
+		};
+		auto read = [&](const uint8_t *e, const char *after, int h, size_t i) -> uint32_t {
+			if (bt) { buffer *b = *reinterpret_cast<buffer * const *>(e); if (!b) return 0; for (int k = 0; k < 4; ++k) if (inner[k].buf == b) return (uint32_t) k + 1;
+				fail("wrong-content", "after %s: element %zu of handle %d refers to a buffer nobody put there", after, i, h); }
+			const identifier *id = (const identifier *) e; const char *d = (const char *) mpt_identifier_data(id); size_t n = id->_len;
+			if (!n) return 0;
+			std::string got(d, n); while (!got.empty() && !got.back()) got.pop_back();      // the stored length includes the terminator
+			if (got.empty()) return 0;
+			unsigned v = 0; if (sscanf(got.c_str(), "n%u", &v) == 1 && name_of(v) == got) return v; if (sscanf(got.c_str(), "a-long-name-that-needs-its-own-allocation-%u", &v) == 1 && name_of(v) == got) return v;
+			fail("wrong-content", "after %s: element %zu of handle %d carries the name '%s' nobody gave it", after, i, h, got.substr(0, 60).c_str());
+			return 0;
+		};
+		auto verifyB = [&](const char *after, int operated) {
+			for (int h = 0; h < 3; ++h) {
+				buffer *b = B[h].buf; size_t n = b ? b->_used / es : 0;
+				if (b && (b->_used % es || b->_used > b->_size)) fail("state", "after %s: handle %d used %zu capacity %zu element size %zu", after, h, (size_t) b->_used, (size_t) b->_size, es);
+				std::vector<uint32_t> got; for (size_t i = 0; i < n; ++i) got.push_back(read((const uint8_t *) (b + 1) + i * es, after, h, i));
+				if (got != MB[h]) { size_t k = 0; while (k < got.size() && k < MB[h].size() && got[k] == MB[h][k]) ++k;
+					fail(h == operated ? "wrong-content" : "other-handle-changed", "after %s on handle %d: handle %d reads %zu elements, a value-semantics vector holds %zu (first difference at %zu: %u, expected %u)", after, operated, h, got.size(), MB[h].size(), k, k < got.size() ? got[k] : 0xffffffffu, k < MB[h].size() ? MB[h][k] : 0xffffffffu); }
+			}
+		};
+		for (const Op &op : p.ops) {
+			int h = (int) (op.a & 0xff) % 3, h2 = (int) ((op.a >> 8) & 0xff) % 3;
+			size_t usedn = B[h].buf ? B[h].buf->_used / es : 0;
+			size_t pos = std::min<size_t>((size_t) (op.b & 0xff) % 12, usedn + 2), n = (size_t) ((op.b >> 8) & 0xff) % 5;
+			uint64_t failn = op.fault == FL_ALLOC ? (uint64_t) std::max<int64_t>(op.fa, 1) : 0, fired = 0; int outcome = 0;
+			st.hit(std::string("op:") + OPS[op.kind]);
+			switch (op.kind) {
+			case OP_B_CLONE: { int rc; { Sut s(failn); rc = mpt_array_clone(AR(B[h]), AR(B[h2])); fired = g.fired; } log.ev("B_CLONE %d <- %d -> %d", h, h2, rc); if (rc >= 0) { MB[h] = MB[h2]; outcome = 1; } break; }
+			case OP_B_RELEASE: { { Sut s; mpt_array_clone(AR(B[h]), 0); } MB[h].clear(); log.ev("B_RELEASE %d", h); outcome = 1; break; }
+			case OP_B_SET: {
+				// n elements at pos, copy-constructed from harness elements or default-constructed
+				bool dflt = ((op.b >> 16) & 3) == 0; std::vector<uint32_t> vals(n); for (auto &v : vals) v = dflt ? 0 : fresh_val();
+				Block src(n * es + 1, 0); for (size_t i = 0; i < n; ++i) make(src.p + i * es, vals[i]);
+				void *r; { Sut s(failn); r = mpt_array_set(AR(B[h]), tr, n * es, dflt ? 0 : src.p, (long) pos); fired = g.fired; }
+				for (size_t i = 0; i < n; ++i) { Sut s; tr->fini(src.p + i * es); }
+				log.ev("B_SET %d pos=%zu n=%zu%s%s -> %s", h, pos, n, dflt ? " default" : "", fired ? " allocfail" : "", r ? "ok" : "null");
+				if (r && !fired) { if (pos + n > MB[h].size()) MB[h].resize(pos + n, 0); for (size_t i = 0; i < n; ++i) MB[h][pos + i] = vals[i]; outcome = 1; }
+				else if (!fired) fail("refused-valid", "set of %zu %s elements at %zu refused without allocation fault", n, bt ? "array" : "identifier", pos);
+				else {
+					// a failed set may have grown the handle with default elements or applied a prefix; re-read what is there
+					buffer *b = B[h].buf; size_t k = b ? b->_used / es : 0; MB[h].clear(); for (size_t i = 0; i < k; ++i) MB[h].push_back(read((const uint8_t *) (b + 1) + i * es, "failed set", h, i));
+				}
+				break;
+			}
+			case OP_B_INSERT: {
+				if (!B[h].buf) break;
+				void *r; { Sut s(failn); r = mpt_array_insert(AR(B[h]), pos * es, n * es); fired = g.fired; }
+				log.ev("B_INSERT %d pos=%zu n=%zu%s -> %s", h, pos, n, fired ? " allocfail" : "", r ? "ok" : "null");
+				if (r) {
+					if (pos > MB[h].size()) MB[h].resize(pos, 0);
+					MB[h].insert(MB[h].begin() + (ptrdiff_t) pos, n, 0);
+					// the gap is raw space for the caller to construct elements in (what precedes it was default-constructed by the library)
+					for (size_t i = 0; i < n; ++i) { uint32_t v = fresh_val(); Block tmp(es, 0); make(tmp.p, v); int ir; { Sut s; ir = tr->init((uint8_t *) r + i * es, tmp.p); tr->fini(tmp.p); }
+						if (ir < 0) fail("refused-valid", "copy construction of a %s element reports failure (%d)", bt ? "array" : "identifier", ir); MB[h][pos + i] = v; }
+					outcome = 1;
+				} else if (!fired) fail("refused-valid", "insert of %zu elements at %zu refused without allocation fault", n, pos);
+				break;
+			}
+			case OP_B_WRITE: {
+				// make [pos, pos+n) writable (private copy of a shared buffer = copy construction of every element), then overwrite in place
+				if (!B[h].buf) break;
+				void *r; { Sut s(failn); r = mpt_array_slice(AR(B[h]), pos * es, n * es); fired = g.fired; }
+				log.ev("B_WRITE %d pos=%zu n=%zu%s -> %s", h, pos, n, fired ? " allocfail" : "", r ? "ok" : "null");
+				if (r) {
+					if (B[h].buf->get_flags() & BufferShared) fail("still-shared", "slice handed out a writable region of a buffer that is still shared");
+					if (pos + n > MB[h].size()) MB[h].resize(pos + n, 0);
+					for (size_t i = 0; i < n; ++i) { uint32_t v = fresh_val(); assign((uint8_t *) r + i * es, v); MB[h][pos + i] = v; }
+					outcome = 1;
+				} else if (!fired) fail("refused-valid", "slice of %zu elements at %zu refused without allocation fault", n, pos);
+				break;
+			}
+			case OP_B_CUT: {
+				if (!B[h].buf) break;
+				buffer *b; { Sut s(failn); b = mpt_array_reserve(AR(B[h]), B[h].buf->_used, tr); fired = g.fired; }
+				if (!b) { if (!fired) fail("refused-valid", "reserve of the current size refused without allocation fault"); break; }
+				size_t ub = b->_used / es; bool valid = n ? (pos <= ub && n <= ub - pos) : pos <= ub;
+				ssize_t rc; { Sut s; rc = mpt_buffer_cut(b, pos * es, n * es); }
+				log.ev("B_CUT %d pos=%zu n=%zu of %zu -> %zd", h, pos, n, ub, rc);
+				if (!valid) { if (rc >= 0) fail("accepted-invalid", "cut(%zu, %zu) accepted on %zu elements", pos, n, ub); }
+				else if (rc < 0) fail("refused-valid", "cut(%zu, %zu) refused on %zu elements", pos, n, ub);
+				else { if (n) MB[h].erase(MB[h].begin() + (ptrdiff_t) pos, MB[h].begin() + (ptrdiff_t) (pos + n)); else MB[h].resize(pos); outcome = 1; }
+				break;
+			}
+			}
+			if (fired) {
+				// an element whose copy could not be made is replaced by a default one or the operation stops early: values are not judged, ownership still is
+				st.hit("fault:allocfail");
+				buffer *b = B[h].buf; size_t k = b ? b->_used / es : 0; MB[h].clear(); for (size_t i = 0; i < k; ++i) MB[h].push_back(read((const uint8_t *) (b + 1) + i * es, "faulted operation", h, i));
+			}
+			st.state(300 + op.kind, bt * 16 + (fired ? 8 : 0) + (int) std::min<size_t>(usedn, 3) * 2 + (B[h].buf && (B[h].buf->get_flags() & BufferShared) ? 1 : 0), outcome);
+			verifyB(OPS[op.kind], h);
+		}
+		for (int h = 0; h < 3; ++h) { Sut s; mpt_array_clone(AR(B[h]), 0); }
+		if (bt) {
+			// every element reference is gone: the harness holds the only reference to each inner buffer
+			for (int k = 0; k < 4; ++k) if (inner[k].buf->get_flags() & BufferShared) fail("never-destroyed", "inner buffer %d is still shared after the last array of arrays went away (an element was not finalised)", k);
+			for (int k = 0; k < 4; ++k) { Sut s; mpt_array_clone(AR(inner[k]), 0); }
+		}
+		check_pending();
+		if (ledger_live()) fail("element-leak", "%zu block(s) still allocated after the last handle was released (elements own them): %s", ledger_live(), ledger_describe().c_str());
+	}
+
 	void exec_cxx_bytes(const Plan &p, Log &log, Stats &st) {
 		T = Track();
 		array *A[3]; std::vector<uint8_t> M3[3];
